@@ -22,9 +22,21 @@ def main():
     emot = [unesc(m.group(1)) for m in re.finditer(r'\(\s*"((?:[^"\\]|\\.)*)"\s*,\s*"', open(os.path.join(d, 'src', 'emoticons.rs'), encoding='utf-8').read())]
     names = [unesc(m.group(1)) for m in re.finditer(r'\(\s*"((?:[^"\\]|\\.)*)"\s*,\s*&\[', open(os.path.join(d, 'src', 'emoji.rs'), encoding='utf-8').read())]
     bn = [unesc(m.group(1)) for m in re.finditer(r'\(\s*"((?:[^"\\]|\\.)*)"\s*,\s*&\[', open(os.path.join(d, 'src', 'bn_emojis.rs'), encoding='utf-8').read())]
+    # the tables themselves (what the statement of C18 calls "all emoji listed for it"), read from the sources independently of
+    # the engine's own look-up functions; a key that occurs twice keeps its last value, as HashMap::from / collect do
+    def lists(fn):
+        m = {}
+        for mm in re.finditer(r'\(\s*"((?:[^"\\]|\\.)*)"\s*,\s*&\[((?:\s*"(?:[^"\\]|\\.)*"\s*,?)*)\s*\]\s*\)', open(os.path.join(d, 'src', fn), encoding='utf-8').read()):
+            m[unesc(mm.group(1))] = [unesc(x) for x in re.findall(r'"((?:[^"\\]|\\.)*)"', mm.group(2))]
+        return m
+    emot_map = {}
+    for mm in re.finditer(r'\(\s*"((?:[^"\\]|\\.)*)"\s*,\s*"((?:[^"\\]|\\.)*)"\s*\)', open(os.path.join(d, 'src', 'emoticons.rs'), encoding='utf-8').read()):
+        emot_map[unesc(mm.group(1))] = unesc(mm.group(2))
+    names_map = lists('emoji.rs')
+    bn_map = lists('bn_emojis.rs')
     os.makedirs(os.path.dirname(out), exist_ok=True)
     tmp = out + '.%d.%d.tmp' % (os.getpid(), __import__('threading').get_ident())
-    json.dump({'emoticons': emot, 'names': names, 'bengali': bn}, open(tmp, 'w'), ensure_ascii=False)
+    json.dump({'emoticons': emot, 'names': names, 'bengali': bn, 'emoticon_map': emot_map, 'names_map': names_map, 'bengali_map': bn_map}, open(tmp, 'w'), ensure_ascii=False)
     os.replace(tmp, out)
     return len(emot), len(names), len(bn)
 
